@@ -125,13 +125,20 @@ def qualify_text(sql, S):
         return None
     if any(t in ("{", "}", "@", "$", "?", "\\", ":") for _, k, t in code if k == "op"):
         return None
-    # CTE names: WITH [RECURSIVE] name [ (cols) ] AS (   and   , name [ (cols) ] AS (
+    # CTE names: WITH [RECURSIVE] name [ (cols) ] [AS] (   and   , name [ (cols) ] AS (   and   , name ( SELECT
     ctes = set()
     for j, (i, k, t) in enumerate(code):
-        if k == "word" and j + 2 < len(code) and code[j + 1][1] == "word" and code[j + 1][2].lower() == "as" and code[j + 2][2] == "(":
-            prev = code[j - 1][2].lower() if j > 0 else ""
-            if prev in ("with", ",", "recursive"):
-                ctes.add(t.lower())
+        if k != "word":
+            continue
+        prev = code[j - 1][2].lower() if j > 0 else ""
+        nxt = code[j + 1][2].lower() if j + 1 < len(code) else ""
+        nxt2 = code[j + 2][2].lower() if j + 2 < len(code) else ""
+        if prev in ("with", "recursive") and (nxt == "(" or nxt == "as"):
+            ctes.add(t.lower())
+        elif prev == "," and nxt == "as" and nxt2 == "(":
+            ctes.add(t.lower())
+        elif prev == "," and nxt == "(" and nxt2 in ("select", "with"):
+            ctes.add(t.lower())
     if "recursive" in words:
         return None
     edits = []   # token indices to prefix
